@@ -88,6 +88,14 @@ def run(check, repo: Repo) -> None:
                      mod.line(st),
                      fail_detail=f"the {prop} setter does not store `{validator}(value, self.ndim …)`: a calibration of "
                                  f"another length (or an array of another rank) can be installed")
+    # the array setter validates rank only: it does not force the previous dtype.  Copying variants install their result through this setter,
+    # in-place variants bind self._array directly — both yield the same array only if the setter leaves the dtype alone
+    _, aset = repo.func(f"{DS}:Dataset.array@setter")
+    forced = [unparse(k.value) for c in calls_in(aset) if call_name(c) == "ensure_valid_array" for k in c.keywords if k.arg == "dtype" and not is_const(k.value, None)]
+    forced += [unparse(c)[:50] for c in calls_in(aset) if isinstance(c.func, ast.Attribute) and c.func.attr == "astype"]
+    check.decide(not forced, "C03-R5", "Dataset.array setter does not coerce the new array to the previous dtype (copying and in-place variants install the same array)", "", mod.line(aset),
+                 fail_detail=f"the setter forces dtype {forced}: copying bin(reducer='mean') / fourier_resample on integer data are truncated back to integers while the in-place variants, "
+                             f"which bind self._array directly, keep the floating-point result")
     _, vn = repo.func(f"{VAL}:validate_ndinfo")
     _, vu = repo.func(f"{VAL}:validate_units")
     _, eva = repo.func(f"{VAL}:ensure_valid_array")
@@ -249,6 +257,22 @@ def run(check, repo: Repo) -> None:
                             check.violated("C03-R4", f"Dataset.{mname}: stores to self.{t.attr} outside the in-place arm",
                                            f"`{unparse(n.stmt)[:60]}` runs when modify_in_place is false", mod.line(n.stmt))
     check.floor("mutation sites examined on non-in-place paths", n_mut, 4)
+    # what a copying operation hands to the NEW dataset never shares storage with the source (basic slicing / reshape of self.array is a view)
+    n_res = 0
+    for mname in OPS:
+        _, fn = repo.func(f"{DS}:Dataset.{mname}")
+        al = Aliasing(fn, STATE, GETTERS, fresh_callees, inv)
+        for st in walk_no_nested_defs(fn):
+            if not isinstance(st, ast.Assign):
+                continue
+            for t in st.targets:
+                if isinstance(t, ast.Attribute) and isinstance(t.value, ast.Name) and t.value.id != "self" and t.attr in ("array", "_array"):
+                    n_res += 1
+                    shared = al.roots(st.value) & {"_array"}
+                    check.decide(not shared, "C03-R4", f"Dataset.{mname}: the array given to the returned dataset `{t.value.id}` does not share storage with the source", unparse(st.value)[:60],
+                                 mod.line(st), fail_detail=f"`{unparse(st)[:70]}` installs a view of self's array in the new dataset: a later write into the result (or into the source) "
+                                                           f"changes the other — the source is not left bit-identical")
+    check.floor("arrays installed in returned datasets", n_res, 3)
     # copy(): every field handed to the new dataset is fresh
     _, cp = repo.func(f"{DS}:Dataset.copy")
     alc = Aliasing(cp, STATE, GETTERS, fresh_callees, inv)
@@ -495,6 +519,27 @@ def _rule_getitem(check, repo: Repo, mod) -> None:
                                            f"of the wrong axis")
     elif unparse(pos) == f"{kname}.index({ivar})":
         verdict, why = True, "direct"
+    if verdict is None and isinstance(pos, ast.Name) and pos.id == ivar and isinstance(loop.iter, ast.Call) and call_name(loop.iter) == "enumerate" and loop.iter.args:
+        # position = running count over a (filtered) sequence of index entries: right iff the filter is exactly the kept-axes predicate
+        seq = loop.iter.args[0]
+        if isinstance(seq, ast.Name):
+            dd = [d for d in definitions(fn, seq.id) if isinstance(d, ast.AST)]
+            seq = dd[0] if len(dd) == 1 else seq
+        kept_gen = kept.value.generators[0]
+        kvar = kept_gen.target.elts[1].id if isinstance(kept_gen.target, ast.Tuple) and len(kept_gen.target.elts) == 2 and isinstance(kept_gen.target.elts[1], ast.Name) else None
+        import re as _re
+        norm = lambda t, v: _re.sub(rf"(?<![A-Za-z0-9_]){_re.escape(v)}(?![A-Za-z0-9_])", "§", t) if v else t
+        if isinstance(seq, (ast.ListComp, ast.GeneratorExp)) and len(seq.generators) == 1 and isinstance(seq.generators[0].target, ast.Name) \
+                and isinstance(seq.elt, ast.Name) and seq.elt.id == seq.generators[0].target.id and unparse(seq.generators[0].iter) == unparse(kept_gen.iter.args[0]):
+            g = seq.generators[0]
+            filt = " and ".join(norm(unparse(c), g.target.id) for c in g.ifs) or "True"
+            same = filt == norm(cond, kvar)
+            verdict = same
+            why = (f"position = count of preceding entries with `{filt}` = the kept-axes predicate" if same else
+                   f"position counts the entries with `{filt}`, the kept axes are those with `{norm(cond, kvar)}`: list/array indices keep their axis but are not counted, "
+                   f"so after a list index the step scales the sampling of the wrong axis")
+        elif unparse(seq) == unparse(kept_gen.iter.args[0]):
+            verdict, why = False, "position is the raw index position: integer indices drop an axis, so the kept position is smaller"
     if verdict is None:
         raise AnalysisError(f"Dataset.__getitem__: position expression `{unparse(pos)}` of the sampling update not understood")
     check.decide(verdict, "C03-R6", "Dataset.__getitem__: the step scales the kept position of the stepped axis", why, mod.line(s),
